@@ -137,8 +137,10 @@ def run(case):
             gen.render_world(shape, [(float(rng.uniform(0.5, 2.0)), np.zeros(3), sig_px)], t, None, dtype=None, out=vol)
         bgl = float(p.get("offset", 0.0)) and float(rng.choice([1.0, 30.0]))   # a constant background level
         if p["dtype"] in ("uint8", "int16"):
+            vol_nobg = np.round(vol / vol.max() * 200).astype(p["dtype"])
             vol = np.round(vol / vol.max() * 200 + (bgl and 40)).astype(p["dtype"])
         else:
+            vol_nobg = vol.astype(p["dtype"])
             vol = (vol + bgl).astype(p["dtype"])
         if bgl:
             case.count("blob_images_with_background")
@@ -213,20 +215,42 @@ def run(case):
     if len(truth) < 2:
         return
 
-    def check_picks(mole, what, mech_dup=None):
+    _plateau = {}
+
+    def plateau_explains(chunks_=None):
+        """Open finding log.dc-gain-plateau, attributed by its cause rather than by the size of the symptom: the
+        truncated discrete LoG kernel has a DC gain of ~2e-4, a constant background becomes a positive plateau whose
+        voxels all equal their local maximum and pass the threshold of 0; every connected plateau component comes
+        back as one pick at its centre of mass, with the filter value there as its score (negligible on the plateau,
+        but comparable to a particle's when the centre of mass of a component that surrounds a particle falls beside
+        it - thorough seed 0). The finding applies iff the same image without its constant background, picked the same
+        way, gives exactly the planted particles (and, chunked, the same set as the numpy array)."""
+        key = None if chunks_ is None else str(chunks_)
+        if key not in _plateau:
+            try:
+                m0 = picker.pick_molecules(vol_nobg, scale, **kw)
+                pr0, ex0, mi0 = _match(m0.pos.astype(float) / scale, truth, tol)
+                ok = not ex0 and not mi0
+                if ok and chunks_ is not None:
+                    m1 = picker.pick_molecules(da.from_array(vol_nobg, chunks=chunks_), scale, **kw)
+                    a_, b_ = m0.pos.astype(float) / scale, m1.pos.astype(float) / scale
+                    ok = a_.shape == b_.shape and float(np.abs(a_[np.lexsort(a_.T)] - b_[np.lexsort(b_.T)]).max()) <= \
+                        TOLERANCES["chunk_equal_px"]
+            except Exception:
+                ok = False
+            _plateau[key] = bool(ok)
+            case.count("plateau_attributions_tested")
+        return _plateau[key]
+
+    def check_picks(mole, what, mech_dup=None, chunks_=None):
         picks = mole.pos.astype(float) / scale
         pairs, extra, missing = _match(picks, truth, tol)
         case.decided += len(truth)
         mech = None
         if extra and mech_dup:
             mech = mech_dup
-        if extra and not missing and kind == "log" and p.get("offset") and "score" in mole.features.columns:
-            # open finding: the truncated discrete LoG kernel has a DC gain of ~2e-4, a constant background becomes a
-            # positive plateau that passes the threshold of 0 and is reported as extra picks of negligible score
-            sc_ = np.abs(mole.features["score"].to_numpy().astype(float))
-            good = np.median(sc_[[i for i, _ in pairs]]) if pairs else 0.0
-            if (good > 0 and float(sc_[extra].max()) <= 0.2 * good) or not p["dtype"].startswith("float"):
-                mech = "log.dc-gain-plateau"     # (integer images: the filter output keeps the integer dtype, scores wrap)
+        if extra and not missing and kind == "log" and p.get("offset") and plateau_explains(chunks_):
+            mech = "log.dc-gain-plateau"
         case.check(not extra and not missing, f"{what}: picks are not one-to-one with the planted particles", mech,
                    n_picks=len(picks), n_truth=len(truth), extra=len(extra), missing=len(missing), picker=kind,
                    chunking=p["chunking"])
@@ -266,12 +290,12 @@ def run(case):
                        "pick.chunk-halo" if nchunks > 1 else None, chunking=p["chunking"], chunks=str(darr.chunks)[:200])
             return
     mech = "pick.chunk-halo" if nchunks > 1 else None
-    got_picks = check_picks(got, f"dask image ({p['chunking']})", mech)
+    got_picks = check_picks(got, f"dask image ({p['chunking']})", mech, chunks_=chunks)
     # same set as the numpy result
     a = base_picks[np.lexsort(base_picks.T)] if len(base_picks) else base_picks
     b = got_picks[np.lexsort(got_picks.T)] if len(got_picks) else got_picks
     same = a.shape == b.shape and (a.size == 0 or float(np.abs(a - b).max()) <= (TOLERANCES["chunk_equal_px"] if kind != "tm" else 1e-3))
-    if not same and kind == "log" and p.get("offset"):
+    if not same and kind == "log" and p.get("offset") and plateau_explains(chunks):
         mech = "log.dc-gain-plateau"
     case.check(same, "chunked image gives a different pick set than the numpy array", mech,
                n_numpy=len(a), n_dask=len(b), chunking=p["chunking"], chunks=str(darr.chunks)[:200])
